@@ -29,8 +29,16 @@ def is_int(*vals):
     return all(isinstance(v, int) and not isinstance(v, bool) for v in vals)
 
 
+_ACC_CALLS = [0]
+
+
 def acc_arg(c):
-    return "clear" if c == CLEAR else c
+    """the accumulator argument of a call: the text "clear" - every other time as a string object built at run time (as a caller gets
+    it from a configuration file or a parsed message), equal to the literal but not the same object - or the number"""
+    if c != CLEAR:
+        return c
+    _ACC_CALLS[0] += 1
+    return "clear" if _ACC_CALLS[0] % 2 else "".join(["cl", "ear"])
 
 
 class Raised:
